@@ -345,10 +345,13 @@ func Run(r *ev.R, sys System) Result {
 						t := atomic.AddInt64(&transitions, 1)
 						mu.Lock()
 						outcomes[hash(obs)] = struct{}{}
+						takeSample := t >= sampleEvery
+						if takeSample {
+							sampleEvery = sampleEvery*7 + 1
+						}
 						mu.Unlock()
-						if t%sampleEvery == 0 {
+						if takeSample {
 							r.Sample(map[string]any{"system": sys.Name, "path": child.path.String(), "observed": obs})
-							sampleEvery *= 7
 						}
 						if verr != nil {
 							report(child.path, verr)
